@@ -52,6 +52,7 @@ fn is_registration(op: &HostOp) -> bool {
 }
 
 pub fn exec(case: &J, acc: &mut Acc) -> Result<(), Fail> {
+    inflight(case);
     let (json_text, meta) = case_story(case)?;
     let cfg = cfg_from_json(&case["cfg"]);
     let ops = ops_from_json(&case["ops"]);
